@@ -4,7 +4,7 @@ namespace CryoCat.Drv.C01
 open Lean CryoCat CryoCat.C01
 
 /-- `fillna(0.0)` then `astype(np.single)` -/
-def conv (v : Float) : Float32 := if v.isNaN then (0 : Float).toFloat32 else v.toFloat32
+def conv (v : Float) : Float32 := CryoCat.C01.conv Float.isNaN Float.toFloat32 0.0 v
 
 def parseCols (a : Array Json) : Option (List Field) :=
   a.toList.mapM (fun j => match j with | Json.str s => Field.ofName? s | _ => none)
